@@ -49,7 +49,9 @@ class Parser(object):
                   tabmodule=self.tabmodule)
 
     def parse(self, input):
-        return self.yacc.parse(input)
+        # yacc.parse() without a lexer falls back on ply's process-wide "last lexer built";
+        # a private copy per call also keeps nested and concurrent evaluations apart
+        return self.yacc.parse(input, lexer=self.lex.clone())
 
     def run(self):
         while 1:
